@@ -6,14 +6,20 @@
 (* Each Read delivers 1..MaxChunk bytes (but never more than asked for), or - once the stream is       *)
 (* exhausted or the scripted failure offset is reached - the failure: "eof" or "err".                  *)
 (* HEADERFULL = FALSE is the pinned header read (a single Read, fewer than 8 bytes is an error).       *)
+(* A stream element b < 0 is a packet whose header announces the length 8 + b, less than the header     *)
+(* itself (C10: all header values incl. length < 8); it occupies its 8 header bytes.  CHECKLEN = TRUE   *)
+(* is the repaired reader, which rejects such a header; CHECKLEN = FALSE is the pinned one: the body    *)
+(* size wraps around (WRAP stands for the code's 2^16), the following bytes are swallowed as body and,   *)
+(* as the number of bytes read can never equal the announced length, the reader loops on zero-length    *)
+(* reads for ever ("spin": neither a packet nor an error).                                               *)
 EXTENDS Integers, Sequences, TLC
 CONSTANTS Streams,      \* set of streams: sequences of body lengths
-          MaxChunk, HEADERFULL, FailKinds
+          MaxChunk, HEADERFULL, FailKinds, CHECKLEN, WRAP
 HDR == 8
 VARIABLES stream, failAt, failKind, pos, pc, need, got, hdrGot, out, errs
 vars == <<stream, failAt, failKind, pos, pc, need, got, hdrGot, out, errs>>
 RECURSIVE Total(_, _)
-Total(s, i) == IF i = 0 THEN 0 ELSE Total(s, i - 1) + HDR + s[i]
+Total(s, i) == IF i = 0 THEN 0 ELSE Total(s, i - 1) + HDR + (IF s[i] < 0 THEN 0 ELSE s[i])
 Init == /\ stream \in Streams /\ failAt \in 0..Total(stream, Len(stream)) /\ failKind \in FailKinds
         /\ pos = 0 /\ pc = "hdr" /\ need = HDR /\ got = 0 /\ hdrGot = 0 /\ out = <<>> /\ errs = 0
 Limit == IF failKind = "none" THEN Total(stream, Len(stream)) ELSE failAt
@@ -29,9 +35,10 @@ ReadHdr(n) ==
     /\ IF hdrGot + n = HDR
        THEN LET k == PktAt(pos + n - HDR, 1) IN
             /\ hdrGot' = 0
-            /\ IF stream[k] = 0 THEN /\ out' = Append(out, k) /\ pc' = "hdr" /\ UNCHANGED <<need, got>>   \* header-only packet
-               ELSE /\ pc' = "body" /\ need' = stream[k] /\ got' = 0 /\ UNCHANGED out
-            /\ UNCHANGED errs
+            /\ IF stream[k] < 0 /\ CHECKLEN THEN /\ errs' = 1 /\ UNCHANGED <<pc, need, got, out>>             \* invalid length: an error
+               ELSE IF stream[k] < 0 THEN /\ pc' = "badbody" /\ need' = WRAP + stream[k] /\ got' = 0 /\ UNCHANGED <<out, errs>>
+               ELSE IF stream[k] = 0 THEN /\ out' = Append(out, k) /\ pc' = "hdr" /\ UNCHANGED <<need, got, errs>>   \* header-only packet
+               ELSE /\ pc' = "body" /\ need' = stream[k] /\ got' = 0 /\ UNCHANGED <<out, errs>>
        ELSE IF HEADERFULL THEN hdrGot' = hdrGot + n /\ UNCHANGED <<pc, need, got, out, errs>>
             ELSE errs' = 1 /\ UNCHANGED <<pc, need, got, hdrGot, out>>      \* pinned: short header read is an error
     /\ UNCHANGED <<stream, failAt, failKind>>
@@ -42,18 +49,34 @@ ReadBody(n) ==
        THEN /\ out' = Append(out, PktAt(pos + n - need - HDR, 1)) /\ pc' = "hdr" /\ got' = 0 /\ UNCHANGED need
        ELSE got' = got + n /\ UNCHANGED <<out, pc, need>>
     /\ UNCHANGED <<stream, failAt, failKind, hdrGot, errs>>
+\* pinned reader behind a header with a length below 8: the wrapped body size is read from whatever follows;
+\* once it is complete the loop condition (bytes read = announced length) can never hold
+ReadBadBody(n) ==
+    /\ pc = "badbody" /\ errs = 0 /\ Avail > 0 /\ n \in 1..MaxChunk /\ n <= Avail /\ n <= need - got
+    /\ pos' = pos + n
+    /\ IF got + n = need THEN pc' = "spin" /\ got' = 0 ELSE got' = got + n /\ UNCHANGED pc
+    /\ UNCHANGED <<stream, failAt, failKind, hdrGot, errs, out, need>>
 \* the transport has nothing more: the failure surfaces as an error (EOF in a body only after the read timeout)
 Fail == /\ errs = 0 /\ Avail = 0 /\ (failKind # "none" \/ pos = Total(stream, Len(stream)))
+        /\ pc # "spin"                       \* a spinning reader issues zero-length reads, which never fail
         /\ errs' = 1 /\ UNCHANGED <<stream, failAt, failKind, pos, pc, need, got, hdrGot, out>>
-Next == (\E n \in 1..MaxChunk : ReadHdr(n) \/ ReadBody(n)) \/ Fail
+Next == (\E n \in 1..MaxChunk : ReadHdr(n) \/ ReadBody(n) \/ ReadBadBody(n)) \/ Fail
 Spec == Init /\ [][Next]_vars /\ WF_vars(Next)
 
 \* packets are emitted in order, each exactly once, only when completely received
 C02_PacketsInOrder == out = [i \in 1..Len(out) |-> i]
 C14_OnlyCompletePackets == \A i \in 1..Len(out) : Total(stream, i) <= pos /\ Total(stream, i) <= Limit
 \* without a failure no read partition produces an error before the stream ends
-C02_NoErrorFromPartition == (failKind = "none" /\ errs = 1) => Len(out) = Len(stream)
+\* (a header with an invalid length ends the stream for the reader: GoodPrefix packets precede it)
+RECURSIVE GoodUpTo(_)
+GoodUpTo(i) == IF i > Len(stream) \/ stream[i] < 0 THEN i - 1 ELSE GoodUpTo(i + 1)
+GoodPrefix == GoodUpTo(1)
+C02_NoErrorFromPartition == (failKind = "none" /\ errs = 1) => Len(out) = GoodPrefix
 \* at least every completely received packet is emitted before the error
-C14_CompleteBeforeError == errs = 1 => \A i \in 1..Len(stream) : Total(stream, i) <= Limit => i <= Len(out)
+C14_CompleteBeforeError == errs = 1 => \A i \in 1..GoodPrefix : Total(stream, i) <= Limit => i <= Len(out)
 C14_ErrorEventually == <>(errs = 1)
+\* C10: the reader always returns - packets or an error, never an endless loop
+C10_NeverSpins == pc # "spin"
+\* nothing is emitted from behind an invalid header
+C10_NothingBehindBadLength == \A i \in 1..Len(out) : \A j \in 1..i : stream[j] >= 0
 =============================================================================
